@@ -224,7 +224,7 @@ func (m *c04Monitor) afterStmt(w *world.World, c *world.StmtCtx) {
 	m.mu.Lock()
 	defer m.mu.Unlock()
 	inst := instOfCaller(c.Caller)
-	if c.Mut {
+	if c.Mut && c.Errno == 0 {
 		m.lastOp = fmt.Sprintf("sql %s at %s by %s", c.Class, c.Host, inst)
 	}
 	it := m.it[inst]
